@@ -122,7 +122,10 @@ pub fn check_draws(prop: &str, cfg: &ChainCfg, h: &History, out: &mut RunOutcome
         if let Some(lp) = logp_stat {
             let expect: Option<f64> = if let Some(e) = matching.last() { Some(e.logp) } else { prev_logp };
             if let Some(ex) = expect {
-                if ex.to_bits() != lp.to_bits() && !(same_as_prev && !matching.is_empty()) {
+                // (a periodic orbit - ExactNormal on a whitened Gaussian - can evaluate the very same position more
+                // than once, and only one of the evaluations may carry an injected energy jump: any of them counts)
+                let any_match = matching.iter().any(|e| e.logp.to_bits() == lp.to_bits());
+                if ex.to_bits() != lp.to_bits() && !any_match && !(same_as_prev && !matching.is_empty()) {
                     out.violate(
                         format!("{prop}/logp_not_of_returned_state/{pname}"),
                         format!("draw {i}: logp statistic {lp:e} but the density returned {ex:e} at the returned position (moved={})", !same_as_prev),
